@@ -163,7 +163,7 @@ func TestVerifC12TCP(t *testing.T) {
 		}
 		var text bytes.Buffer
 		opts := ""
-		if o := cc.Opts(c.Allow, c.Deny, ""); o != "" {
+		if o := cc.CaseOpts(c, false); o != "" {
 			opts = fmt.Sprintf(" opts %q", o)
 		}
 		for _, f := range fronts {
@@ -285,7 +285,7 @@ func TestVerifC12TCP(t *testing.T) {
 			made := n1 - n0 - 1 // minus this barrier's own connection
 			cc2 := *c
 			cc2.Conc, cc2.Variant = cc.Name, kind
-			desc := fmt.Sprintf("%s proxy, opts %q, client %s", kind, cc.Opts(c.Allow, c.Deny, ""), src)
+			desc := fmt.Sprintf("%s proxy, opts %q, client %s", kind, cc.CaseOpts(c, false), src)
 			rulesCause := "rules:" + c.CfgClass()
 			out := "close"
 			if made >= 1 {
@@ -317,7 +317,7 @@ func TestVerifC12TCP(t *testing.T) {
 			nontrivial++
 		}
 		if len(samples) < 2 && i%97 == 13 {
-			samples = append(samples, fmt.Sprintf("TCP opts %q from %s -> %v", cc.Opts(c.Allow, c.Deny, ""), src, c.Outcomes))
+			samples = append(samples, fmt.Sprintf("TCP opts %q from %s -> %v", cc.CaseOpts(c, false), src, c.Outcomes))
 		}
 	}
 	verifx.Summary(map[string]any{"cases": len(cases), "ran": ran, "connections": conns, "skipped_no_source_address": skipped,
